@@ -318,6 +318,15 @@ func (c *Client) validateVirtualChannelFundingProposal(
 		return errors.WithMessage(err, "insufficient funds")
 	}
 
+	// Assert that exactly the virtual channel's funds are debited and that all
+	// other sub-allocations stay as they are.
+	if !ch.state().Balances.Sub(virtual).Equal(prop.State.Balances) {
+		return errors.New("invalid balances")
+	}
+	if !channel.SubAllocsEqual(append(ch.state().Clone().Locked, *expected), prop.State.Locked) {
+		return errors.New("other sub-allocations changed")
+	}
+
 	return nil
 }
 
